@@ -14,6 +14,7 @@ except (ValueError, OSError):
     pass
 
 DEADLINE_MS = 2000
+CONFIRM_MS = 8000
 REPL_BIG5 = [0xFF, 0xFD]           # what Utf8ToBig5 appends for a sequence it has no entry for
 REPL_UTF8 = [0xEF, 0xBF, 0xBD]     # U+FFFD
 
@@ -96,6 +97,18 @@ def main():
 
     def both(lines, label):
         io = vf.run_impl(impl, "C17", lines, deadline_ms=DEADLINE_MS)
+        # a status 2 must be a stall of the conversion, not of a loaded machine: confirm with a longer deadline
+        # (the first three; if any of them returns after all, every reported stall is re-run that way)
+        late = [i for i, r in enumerate(io) if r.split()[:1] == ["2"]]
+        recheck = late[:3]
+        while recheck:
+            returned = False
+            for i in recheck:
+                r = vf.run_impl(impl, "C17", [lines[i]], deadline_ms=CONFIRM_MS)[0]
+                if r.split()[:1] != ["2"]:
+                    io[i] = r
+                    returned = True
+            recheck = [i for i in late[3:] if io[i].split()[:1] == ["2"]] if returned and recheck == late[:3] else []
         if model:
             mo = vf.run_model(model, lines)
             vf.correspond(c, label, lines, io, mo)
